@@ -278,6 +278,8 @@ func (r *runner) apply(st Step) (err error, retMismatch string) {
 	return
 }
 
+var headFirstOnly bool // -mode c03: only the order of executions is judged (list content is C05's business)
+
 func replayCase(n int, steps []Step) Result {
 	res := Result{Case: n, OK: true}
 	r := newRunner(n%2 == 1)
@@ -297,6 +299,21 @@ func replayCase(n int, steps []Step) Result {
 			return res
 		}
 		err, retMis := r.apply(st)
+		if headFirstOnly {
+			if err != nil {
+				return bad("DIV/steer/"+op, err.Error())
+			}
+			if r.pc == "handling" && st.Wpc == "handling" && r.cur != st.Cur {
+				return bad("C03/head-first", fmt.Sprintf("the handler got task %s, the task at the head of an ordinary list is %s", r.cur, st.Cur))
+			}
+			if (r.pc == "handling") != (st.Wpc == "handling") {
+				return bad("C03/pick/"+op, fmt.Sprintf("worker at %s, specification at %s", r.pc, st.Wpc))
+			}
+			if r.pc != st.Wpc {
+				return bad("DIV/wpc/"+op, fmt.Sprintf("worker at %s, specification at %s", r.pc, st.Wpc))
+			}
+			continue
+		}
 		if err != nil {
 			if len(op) > 2 && op[:2] == "W_" {
 				return bad("DIV/steer/"+op, err.Error())
@@ -497,7 +514,9 @@ func main() {
 	out := fs.String("out", "", "output file")
 	n := fs.Int("n", 100, "number of runs")
 	seed := fs.Int64("seed", 1, "seed")
+	mode := fs.String("mode", "", "c03: judge only which task is executed next")
 	fs.Parse(os.Args[2:])
+	headFirstOnly = *mode == "c03"
 	var err error
 	switch os.Args[1] {
 	case "replay":
